@@ -279,11 +279,92 @@ func execDistr(x *Exec, toks []string) string {
 		return "."
 	case "d.bb":
 		return distrBlock(x, f)
+	case "d.update":
+		return distrUpdate(x, f, toks)
+	case "d.params":
+		return "ok p=" + distrParamsStr(f.keeper.GetParams(x.ctx))
 	case "d.end":
 		distrEndMonitors(x, f)
 		return "."
 	}
 	return "bad-op"
+}
+
+func distrAccountStr(a distrtypes.Account) string { return esc(a.Type) + "|" + esc(a.Id) }
+
+func distrParamsStr(p distrtypes.Params) string {
+	var subs []string
+	for _, s := range p.SubDistributors {
+		var src, sh []string
+		for _, a := range s.Sources {
+			if a == nil {
+				src = append(src, "nil")
+			} else {
+				src = append(src, distrAccountStr(*a))
+			}
+		}
+		for _, d := range s.Destinations.Shares {
+			sh = append(sh, fmt.Sprintf("%s/%s/%s", esc(d.Name), decStr(d.Share), distrAccountStr(d.Destination)))
+		}
+		subs = append(subs, fmt.Sprintf("%s~%s~%s~<%s>~<%s>", esc(s.Name), decStr(s.Destinations.BurnShare), distrAccountStr(s.Destinations.PrimaryShare),
+			strings.Join(src, ","), strings.Join(sh, ",")))
+	}
+	return "[" + strings.Join(subs, ";") + "]"
+}
+
+// the four distributor parameter-update messages, delivered with baseapp semantics (C13)
+func distrUpdate(x *Exec, f *distrFam, toks []string) string {
+	ms := distrkeeper.NewMsgServerImpl(*f.keeper)
+	auth := authorityOf(x, toks[2])
+	before := distrParamsStr(f.keeper.GetParams(x.ctx))
+	var res string
+	switch toks[1] {
+	case "full":
+		msg := &distrtypes.MsgUpdateParams{Authority: auth, SubDistributors: cloneSubs(f.pending)}
+		res, _ = x.deliver(msg.ValidateBasic, func(ctx sdk.Context) error {
+			_, err := ms.UpdateParams(sdk.WrapSDKContext(ctx), msg)
+			return err
+		})
+	case "sub":
+		msg := &distrtypes.MsgUpdateSubDistributorParam{Authority: auth}
+		if toks[3] != "1" && len(f.pending) > 0 {
+			c := cloneSubs(f.pending[:1])
+			msg.SubDistributor = &c[0]
+		}
+		res, _ = x.deliver(msg.ValidateBasic, func(ctx sdk.Context) error {
+			_, err := ms.UpdateSubDistributorParam(sdk.WrapSDKContext(ctx), msg)
+			return err
+		})
+	case "share":
+		msg := &distrtypes.MsgUpdateSubDistributorDestinationShareParam{Authority: auth, SubDistributorName: unesc(toks[3]), DestinationName: unesc(toks[4]), Share: decTok(toks[5])}
+		res, _ = x.deliver(msg.ValidateBasic, func(ctx sdk.Context) error {
+			_, err := ms.UpdateSubDistributorDestinationShareParam(sdk.WrapSDKContext(ctx), msg)
+			return err
+		})
+	case "burn":
+		msg := &distrtypes.MsgUpdateSubDistributorBurnShareParam{Authority: auth, SubDistributorName: unesc(toks[3]), BurnShare: decTok(toks[4])}
+		res, _ = x.deliver(msg.ValidateBasic, func(ctx sdk.Context) error {
+			_, err := ms.UpdateSubDistributorBurnShareParam(sdk.WrapSDKContext(ctx), msg)
+			return err
+		})
+	default:
+		return "bad-op"
+	}
+	stored := f.keeper.GetParams(x.ctx)
+	after := distrParamsStr(stored)
+	if r, _ := catch(func() error { return stored.Validate() }); r != "ok" {
+		x.hit("C13", "stored-params-valid", "cfedistributor", "stored parameters do not validate after "+strings.Join(toks[:2], " "))
+	}
+	if toks[2] != "gov" && (res == "ok" || after != before) {
+		x.hit("C13", "authority", "cfedistributor/"+toks[1], "update from authority "+toks[2]+" was accepted or changed parameters")
+	}
+	if res != "ok" && after != before {
+		x.hit("C13", "rejected-keeps", "cfedistributor/"+toks[1], "rejected update changed the stored parameters")
+	}
+	if res == "panic" {
+		x.hit("C20", "message-panics", "d.update/"+toks[1], "handler or ValidateBasic panicked")
+	}
+	return res
 }
 
 func distrBlock(x *Exec, f *distrFam) string {
